@@ -263,12 +263,14 @@ def run(ctx):
                 ctx.distinct(("cw", i0, i1, i2, ops))
 
     cv_cases = []
-    intf_sets = [(0, 2, 4), (0, 2, 4, 6)]
+    # interface sets incl. ones straddling zero, so that a cap of exactly 0 (a falsy value) is exercised
+    intf_sets = [(0, 2, 4), (0, 2, 4, 6), (-3, -1, 1), (-4, -2, 0, 2)]
     for intfs in intf_sets:
         n = len(intfs)
-        lv = tuple(range(-1, intfs[-1] + 2))
+        lv = tuple(range(intfs[0] - 1, intfs[-1] + 2))
         for mv in itertools.product((0, 1), repeat=n - 1):   # moves[1:], moves[0] is for [0-]
-            for cap in (None, intfs[-1] - 1, intfs[-1]):
+            caps = [None, intfs[-1] - 1, intfs[-1]] + ([0] if intfs[0] < 0 <= intfs[-1] else [])
+            for cap in dict.fromkeys(caps):
                 pool = list(seqs(lv, 3, 0))
                 extra = [tuple(rng.choice(lv) for _ in range(rng.randint(4, 9))) for _ in range(40 if ctx.quick else 400)]
                 for ops in pool + extra:
@@ -294,9 +296,20 @@ def run(ctx):
             vals = cvv.split()[1:]
             pmax = max(ops)
             ok = len(vals) == len(intfs) and vals[-1] == "0"
+            capv = intfs[-1] if cap is None else cap
             for i, m in enumerate(mv[: len(intfs) - 1]):
                 if not m and i < len(vals):
                     ok = ok and vals[i] == ("1" if intfs[i] <= pmax else "0")
+                elif m and i < len(vals) and intfs[0] <= capv:
+                    # wire-fencing entry: frames on valid sub-paths of [λ_i, cap), doubled iff start side ≠ end side
+                    base = py_spec(ops, intfs[i], capv)[0]
+                    st = "L" if ops[0] <= intfs[0] else ("R" if ops[0] >= capv else "?")
+                    en = "L" if ops[-1] <= intfs[0] else ("R" if ops[-1] >= capv else None)
+                    want = 2 * base if st != en else base
+                    if vals[i] != str(want):
+                        ctx.fail("C10:cv-vector-wf-entry", f"wire-fencing entry {i} of the weight vector is {vals[i]}, "
+                                 f"the frames on valid sub-paths of [{intfs[i]}, {capv}) give {want}",
+                                 {"cap": cap, "intfs": intfs, "moves_tail": mv, "ops": ops, "code": cvv})
             if not ok:
                 ctx.fail("C10:cv-vector-shape", f"weight vector {cvv} for sh entries/last interface",
                          {"cap": cap, "intfs": intfs, "moves_tail": mv, "ops": ops, "code": cvv})
